@@ -107,15 +107,20 @@ type labConn struct {
 	peer   net.Addr
 	onWrite func(b []byte) // reaction of the scripted servers to a client transmission
 	runaway bool
+	reads      chan struct{} // a token each time ReadFrom is entered (used by "instant" servers to wait for the loop)
 	failWrites int // the next writes fail
 	closeErr   bool // Close reports an error (it still closes)
 }
 
 func newLabConn() *labConn {
-	return &labConn{in: make(chan []byte), closed: make(chan struct{}), start: time.Now(), peer: &net.UDPAddr{IP: net.IP{10, 0, 0, 1}, Port: 67}}
+	return &labConn{in: make(chan []byte), closed: make(chan struct{}), reads: make(chan struct{}, 64), start: time.Now(), peer: &net.UDPAddr{IP: net.IP{10, 0, 0, 1}, Port: 67}}
 }
 
 func (c *labConn) ReadFrom(p []byte) (int, net.Addr, error) {
+	select {
+	case c.reads <- struct{}{}:
+	default:
+	}
 	select {
 	case b := <-c.in:
 		return copy(p, b), c.peer, nil
